@@ -1911,6 +1911,18 @@ func (c *Checker) checkAsExpressionNode(node *ast.AsExpressionNode) *ast.AsExpre
 	node.RuntimeType = c.checkComplexConstantType(node.RuntimeType)
 	runtimeType := c.TypeOf(node.RuntimeType)
 
+	// the compiler emits a constant lookup by name: use the resolved (absolute) name, as constant expressions do
+	if namespace, ok := runtimeType.(types.Namespace); ok {
+		switch r := node.RuntimeType.(type) {
+		case *ast.PublicConstantNode:
+			r.Value = namespace.Name()
+			c.addToConstantCache(value.ToSymbol(r.Value))
+		case *ast.PrivateConstantNode:
+			r.Value = namespace.Name()
+			c.addToConstantCache(value.ToSymbol(r.Value))
+		}
+	}
+
 	switch runtimeType.(type) {
 	case *types.Class, *types.Mixin:
 	default:
